@@ -3,6 +3,7 @@ import ComposeVerif.Ops.C08
 import ComposeVerif.Ops.C12
 import ComposeVerif.Ops.C04
 import ComposeVerif.Model.Pipeline
+import ComposeVerif.Gen.OmitEmpty
 /-! line-protocol op `pipeline.load`: the composed loader pipeline (`Model/Pipeline.lean`) on a list of documents -/
 open Lean
 namespace CV.Ops.Pipeline
@@ -36,7 +37,11 @@ def cfgOf (args : Json) : Cfg :=
 
 /-- `{"docs":[T(map)…], "opts":{…}, "env":{…}, "name":…, "wd":…, "home":…, "remotes":[…], "omit":[…], "f64":{…}, "f32":{…}}`
     → `{"ok": T}` | `{"err": stage}` | `{"panic": site}` -/
+def omitTableBad : String :=
+  "the omitempty table handed over at run time (loader.VerifOmitEmptyPatterns) differs from the table regenerated from loader/omitEmpty.go (Gen.omitempty)"
+
 def loadOp : Handler := fun args =>
+  if (cfgOf args).omitPats != CV.Gen.omitempty then Json.mkObj [("bad", omitTableBad)] else
   match docsOf (getObj args "docs") with
   | .error e => Json.mkObj [("bad", e)]
   | .ok docs =>
@@ -54,6 +59,7 @@ def filesOf (j : Json) : List (List Reset.YNode) :=
 
 /-- `{"files":[[node…]…], …}` (nodes in C04's wire format, tags included) → `{"ok": T}` | `{"err": stage}` | `{"panic": site}` -/
 def loadYOp : Handler := fun args =>
+  if (cfgOf args).omitPats != CV.Gen.omitempty then Json.mkObj [("bad", omitTableBad)] else
   match loadY (cfgOf args) (filesOf (getObj args "files")) with
   | .ok kvs => Json.mkObj [("ok", Val.toJson (.map kvs))]
   | .err e => Json.mkObj [("err", e)]
